@@ -138,4 +138,36 @@ patch /repo/wallet/txauthor/author.go $T/sign2.go '		txscript.SigHashDefault, pr
 mut "signing (corrupted P2TR key-spend signature, validateMsgTx disabled)" "{\"Replace\":{\"$C\":\"$T/sign1.go\",\"/repo/wallet/txauthor/author.go\":\"$T/sign2.go\"}}"
 fi
 
+
+# The two classes below need the small-coin family (3/4-coin states) resp. the
+# "spender seen before its receipt" statuses: C06_SIZES=134 ./mutations.sh random spenderfirst
+if sel random; then
+patch $C $T/random.go '	rand.Shuffle(len(positivelyYielding), func(i, j int) {
+		positivelyYielding[i], positivelyYielding[j] =
+			positivelyYielding[j], positivelyYielding[i]
+	})
+
+	return positivelyYielding, nil' '	n := len(positivelyYielding)
+	positivelyYielding = append(positivelyYielding, positivelyYielding...)
+	rand.Shuffle(len(positivelyYielding), func(i, j int) {
+		positivelyYielding[i], positivelyYielding[j] =
+			positivelyYielding[j], positivelyYielding[i]
+	})
+
+	return positivelyYielding[:n], nil'
+mut "random (CoinSelectionRandom may arrange the same coin twice)" "{\"Replace\":{\"$C\":\"$T/random.go\"}}"
+fi
+
+if sel spenderfirst; then
+patch /repo/wtxmgr/unconfirmed.go $T/spfirst.go '		prevOut := &input.PreviousOutPoint
+		k := canonicalOutPoint(&prevOut.Hash, prevOut.Index)
+		err = putRawUnminedInput(ns, k, rec.Hash[:])' '		prevOut := &input.PreviousOutPoint
+		if !isKnownOutput(ns, *prevOut) {
+			continue
+		}
+		k := canonicalOutPoint(&prevOut.Hash, prevOut.Index)
+		err = putRawUnminedInput(ns, k, rec.Hash[:])'
+mut "spenderfirst (unmined spender indexed only when the spent output is already a credit)" "{\"Replace\":{\"/repo/wtxmgr/unconfirmed.go\":\"$T/spfirst.go\"}}"
+fi
+
 rm -rf $T
